@@ -572,9 +572,13 @@ impl DefragQueue {
 
             // Only after we have received the last frame, and any middle frame, we know how many
             // frames to expect and the final packet size.
-            let expected_frames = final_packet_size.div_ceil(frame_window_size);
+            //
+            // All frames before the last one carry exactly frame_window_size bytes, the last frame
+            // may carry less (even nothing), so the count follows from the last frame's offset
+            // rather than from the packet size.
+            let expected_frames = last_frame_offset as usize / frame_window_size + 1;
             // expected_frames is guaranteed to be <= MAX_FRAMES
-            // because final_packet_size <= MAX_PACKET_SIZE
+            // because last_frame_offset <= MAX_PACKET_SIZE
             // and     frame_window_size >= MIN_PAYLOAD_SIZE
 
             self.expected_frames = Some(expected_frames);
